@@ -208,6 +208,8 @@ type symxBroker struct {
 
 func symxNewBroker(id uint64, logBase uint64) *symxBroker {
 	b := &symxBroker{id: id}
+	symxClockMs = 0
+	symxTick()
 	b.bq = &memberlist.TransmitLimitedQueue{RetransmitMult: 1, NumNodes: func() int { return 1 }}
 	b.state = distributed.NewState(id, b.bq, audit.NoneRecorder())
 	b.local = NewState(id)
@@ -393,4 +395,12 @@ func symxCount(ps []packet.Packet, typ byte) int {
 		}
 	}
 	return n
+}
+
+// tick advances the virtual clock by one millisecond (client packets never arrive at the same instant).
+var symxClockMs int64
+
+func symxTick() {
+	symxClockMs++
+	rt.SetNow(1600000000+symxClockMs/1000, (symxClockMs%1000)*1000000)
 }
